@@ -700,11 +700,12 @@ Proof.
   assert (Clone :
     match value b with
     | Some p =>
-        match clone_slots (heap_of s) (slots p) with
+        match clone_slots (heap_of s) (cloned_slots (slots p)) with
         | Ok h0 =>
             AO (set_reg (set_heap (set_heap s h0)
                   (heap_of (set_heap s h0) ++
-                   [new_box {| pid := length (heap_of s); slots := slots p; script := [] |}]))
+                   [new_box {| pid := length (heap_of s); slots := cloned_slots (slots p);
+                               script := [] |}]))
                   r0 (RStrong (length (heap_of s)))) self RUnit [FDropStrong o]
         | Bad e => AHalt e
         end
@@ -712,14 +713,14 @@ Proof.
     end = AO s1 self1 r push ->
     act_eff s s1 push /\ option_map pid self1 = option_map pid self).
   { clear H. intros H. destruct (value b) as [p|] eqn:Hv; [|discriminate].
-    destruct (clone_slots (heap_of s) (slots p)) as [h0|] eqn:E0; [|discriminate].
+    destruct (clone_slots (heap_of s) (cloned_slots (slots p))) as [h0|] eqn:E0; [|discriminate].
     injection H as <- <- <- <-. split; [|reflexivity].
     apply clone_slots_hpids in E0. pose proof (hpids_eq_length _ _ E0) as L0.
     apply eff_push_inert; [|reflexivity|reflexivity].
     eapply quiet_eff_l; [apply (quiet_set_heap s s h0); [exact E0|apply quiet_refl]|].
     eapply quiet_eff_r;
       [apply (eff_alloc (set_heap s h0)
-                {| pid := length (heap_of s); slots := slots p; script := [] |});
+                {| pid := length (heap_of s); slots := cloned_slots (slots p); script := [] |});
        cbn [pid heap_of set_heap mk]; congruence|].
     apply quiet_set_reg; [reflexivity| |apply quiet_refl].
     rewrite !reg_get_set_heap, Er. reflexivity. }
